@@ -253,6 +253,27 @@ def check(ctx):
         ctx.check(n_app == 1 and rec == by_name, "C16.R4", f"{sb.qualname}:emitter-shape", e.node, f"the emitter appends {n_app} time(s) and recurses into {sorted(rec)} (name buckets: {sorted(by_name)})", sb, e.node, detail="append once; recurse into every name bucket")
         order_ok = [norm(n.iter.value) if isinstance(n, ast.For) else "append" for n in e.node.body if isinstance(n, ast.For) or (isinstance(n, ast.Expr) and "result.append" in norm(n))]
         ctx.check(order_ok == ["before", "append", "after"], "C16.R4", f"{sb.qualname}:emitter-order", e.node, f"emission order is {order_ok}: elements marked before= must precede and after= must follow their target", sb, e.node, detail="before, element, after")
+    # ---------------- R6: one ordering for the serialized method and the GraphQL field of a resolver
+    ctx.rule("C16.R6", "resolver(serialized=True, ...) registers the serialized method with every option the two decorators share (order, alias, conversion, schema, error_handler, owner): the serialized object and the GraphQL type order the method alike", floor=5)
+    rs = model.func("apischema.graphql.resolvers.resolver")
+    sd = [f for f in model.funcs_in_module("apischema.serialization.serialized_methods") if f.name == "serialized" and f.parent is None]
+    ctx.require(sd, "serialized() not found")
+    s_params = set()
+    for f in sd:
+        s_params |= {a.arg for a in f.node.args.kwonlyargs}
+    r_params = {a.arg for a in rs.node.args.kwonlyargs}
+    shared = sorted(s_params & r_params)
+    ctx.require(len(shared) >= 5, f"options shared by resolver() and serialized(): only {shared}")
+    calls = [c for c in ast.walk(rs.node) if isinstance(c, ast.Call) and dotted(c.func) in ("register_serialized", "serialized")]
+    ctx.require(len(calls) == 1, "resolver(): the registration of the serialized method was not found")
+    kws = {k.arg: k.value for k in calls[0].keywords}
+    for opt in shared:
+        v = kws.get(opt)
+        ok = v is not None and any(isinstance(x, ast.Name) and (x.id == opt or x.id.rstrip("2") == opt) for x in ast.walk(v))
+        ctx.check(ok, "C16.R6", f"{rs.qualname}:serialized({opt}=)", None,
+                  f"`{short(calls[0], 60)}` does not forward `{opt}`: " + ("serialize() and the JSON schema place the method by declaration order while the GraphQL type uses the given order" if opt == "order" else f"the serialized method ignores the resolver's {opt}"),
+                  rs, calls[0], detail=f"{opt}={opt}")
+
     # ---------------- R5: every element is reached, once (attachment cycles)
     ctx.rule("C16.R5", "elements attached to each other (after= / before= forming a cycle, or an element attached to itself) are reached from no order group: sort_by_order sweeps all the elements through the emitter after the groups, and the emitter emits an element at most once", floor=3)
     if len(emit) == 1:
@@ -288,6 +309,7 @@ def check(ctx):
 
 
 def mutants(mb):
+    mb.add_text("resolver-serialized-order-dropped", "apischema/graphql/resolvers.py", "                    order=order,\n                    owner=owner,\n                )(func)", "                    owner=owner,\n                )(func)", "C16.R6", "order")
     O = "apischema/ordering.py"
     mb.add_text("groups-descending", O, "    for value in sorted(groups):", "    for value in sorted(groups, reverse=True):", "C16.R4", "ascending")
     mb.add_text("default-group-one", O, "        if ordering is None:\n            groups[0].append(elt)", "        if ordering is None:\n            groups[1].append(elt)", "C16.R4", "group-keys")
